@@ -114,12 +114,24 @@ theorem inv_changeCollateral (tok : String) (coll : Bool) : Inv (Good cx env) (c
   split
   · exact hupd _ _
   · -- the flag really changes: `_supplies_amount_cache` stays valid, the other two are reset
+    refine InvTo.bind (R := Pin cx env s.supplies s.borrows)
+      (fun s' hs' => by rw [checkCanCollateral_snd]; exact hs') (fun _ => ?_) (hid _ _)
     refine InvTo.bind (R := Pin cx env (AList.set s.supplies tok { info with coll := coll }) s.borrows)
       (InvTo.modify (fun s' hs' => good_commitFlag hs' hg coll)) (fun _ => ?_) (hid _ _)
     dsimp only
     split
-    · refine InvTo.bind (R := Pin cx env (AList.set s.supplies tok { info with coll := coll }) s.borrows)
-        (readInv_pin _ _).toReadInv3.healthFactor (fun hf => ?_) (hid _ _)
+    · have hback : ∀ s', Pin cx env (AList.set s.supplies tok { info with coll := coll }) s.borrows s' →
+          Good cx env (commitFlag tok info s').2 := by
+        intro s' hs'
+        have hg1 : AList.get? (AList.set s.supplies tok { info with coll := coll }) tok
+            = some { info with coll := coll } := aget_set_self _ _ _
+        have h := (good_commitFlag hs' hg1 info.coll).1
+        have e : ({ ({ info with coll := coll } : SupplyInfo) with coll := info.coll } : SupplyInfo) = info := by
+          cases info; rfl
+        rw [e] at h
+        exact h
+      refine InvTo.bind_onError (R := Pin cx env (AList.set s.supplies tok { info with coll := coll }) s.borrows)
+        (readInv_pin _ _).toReadInv3.healthFactor (fun hf => ?_) hback
       split
       · -- revert: the original flag is written back and the same two caches are reset again
         refine InvTo.bind (R := Good cx env) (InvTo.modify (fun s' hs' => ?_))
